@@ -59,6 +59,12 @@ class Session:
         self.seen_packets_server = []
         self.seen_packets_client = []
 
+        # next expected TCP sequence number per direction, None until the first record has been framed
+        self.server_next_seq = None
+        self.client_next_seq = None
+        self.server_seen = False
+        self.client_seen = False
+
         self.can_decrypt = False
         self.client_hello_seen = False
 
@@ -481,6 +487,7 @@ class Session:
         """Extracts packets from session which together contain complete TLS_Records"""
         packet: Packet
         for packet in self.packet_buffer:
+            self.note_acknowledgement(packet)
             if packet.ip_src == self.server_ip and packet.sport == self.server_port:
                 self.server_packet_buffer.append(packet)
                 self.extract_server_buf()
@@ -498,16 +505,54 @@ class Session:
 
                 self.client_tls_records.clear()
 
+    def note_acknowledgement(self, packet: Packet):
+        """The first segment seen in one direction acknowledges, and thereby names, the next sequence number of the
+        opposite direction (e.g. the ClientHello segment carries the sequence number of the first server byte), so
+        that direction is reassembled from there even if its first segment is captured late."""
+        from_server = packet.ip_src == self.server_ip and packet.sport == self.server_port
+        if not packet.tcp.flags & 0x10:  # ACK
+            pass
+        elif from_server and not self.server_seen and not self.client_seen:
+            self.client_next_seq = packet.ack
+        elif not from_server and not self.client_seen and not self.server_seen:
+            self.server_next_seq = packet.ack
+        if from_server:
+            self.server_seen = True
+        else:
+            self.client_seen = True
+
+    @staticmethod
+    def contiguous_end(packet_buffer, next_seq):
+        """Orders the buffered segments of one direction by TCP sequence number, relative to the next expected
+        sequence number and modulo 2^32, and checks that they continue the stream without a gap.
+
+            :return: sequence number following the last buffered byte, None while a segment is still missing
+        """
+        if next_seq is None:
+            # nothing framed yet in this direction: the earliest segment seen so far starts the stream
+            ref = packet_buffer[0].seq
+            packet_buffer.sort(key=lambda x: (x.seq - ref + 0x80000000) & 0xFFFFFFFF)
+            next_seq = packet_buffer[0].seq
+        else:
+            # segments lying before the next expected sequence number have been processed already
+            packet_buffer[:] = [x for x in packet_buffer if (x.seq - next_seq) & 0xFFFFFFFF < 0x80000000]
+            packet_buffer.sort(key=lambda x: (x.seq - next_seq) & 0xFFFFFFFF)
+            if len(packet_buffer) == 0:
+                return None
+
+        for packet in packet_buffer:
+            if packet.seq != next_seq:
+                return None
+            next_seq = (next_seq + len(packet.tls_data)) & 0xFFFFFFFF
+        return next_seq
+
     def extract_server_buf(self):
         """Extracts packets from session which together contain complete TLS_Records"""
         self.server_counter += 1
-        self.server_packet_buffer.sort(key=lambda x: x.seq)
-
-        for i in range(0, len(self.server_packet_buffer) - 1):
-            if self.server_packet_buffer[i].seq + len(self.server_packet_buffer[i].tls_data) != \
-                    self.server_packet_buffer[i + 1].seq:
-                # need more packets (missing packets)
-                return
+        expected_seq = self.contiguous_end(self.server_packet_buffer, self.server_next_seq)
+        if expected_seq is None:
+            # need more packets (missing packets)
+            return
 
         index = 0
         packet_ranges = []
@@ -550,17 +595,15 @@ class Session:
 
                 index += record_len
             self.server_packet_buffer.clear()
+            self.server_next_seq = expected_seq
 
     def extract_client_buf(self):
         """Extracts packets from session which together contain complete TLS_Records"""
         self.client_counter += 1
-        self.client_packet_buffer.sort(key=lambda x: x.seq)
-
-        for i in range(0, len(self.client_packet_buffer) - 1):
-            if self.client_packet_buffer[i].seq + len(self.client_packet_buffer[i].tls_data) != \
-                    self.client_packet_buffer[i + 1].seq:
-                # need more packets (missing packets)
-                return
+        expected_seq = self.contiguous_end(self.client_packet_buffer, self.client_next_seq)
+        if expected_seq is None:
+            # need more packets (missing packets)
+            return
 
         index = 0
         packet_ranges = []
@@ -603,3 +646,4 @@ class Session:
 
                 index += record_len
             self.client_packet_buffer.clear()
+            self.client_next_seq = expected_seq
